@@ -1211,6 +1211,8 @@ class SyncObj(object):
             self.__raftNextIndex[node] = self.__getCurrentLogIndex() + 1
             self.__raftMatchIndex[node] = 0
             self.__lastResponseTime[node] = monotonicTime()
+            # A snapshot transfer left over from an earlier term of ours must not be continued
+            self.__serializer.cancelTransmisstion(node)
 
         # No-op command after leader election.
         idx, term = self.__getCurrentLogIndex() + 1, self.__raftCurrentTerm
